@@ -48,7 +48,7 @@ def build_vocab(kind):
     cmds = sorted(set(FROZEN_COMMANDS) | set(module_commands()))
     tags = sorted(set(FROZEN_TAGS) | set(module_tags()))
     v = list(PUNCT)
-    v += [b'"a"', b'"i;octet"', b'"gt"', b'"a\\"b"']
+    v += [b'"a"', b'"i;octet"', b'"gt"', b'"a\\"b"', b'"c\r\nd"']
     v += [b"text:\nx\n.", b"text:\r\nx\r\n."]
     v += [b"1", b"2K"]
     v += [c.encode() for c in cmds]
@@ -303,10 +303,10 @@ def t2_space(name):
     v.append(b":foo")
     withparam = sorted(t for t in tags if spec and t in spec["tags"] and spec["tags"][t][1])
     if withparam:
-        v.append(withparam[0].upper().encode())
+        v += [t.upper().encode() for t in withparam]
     elif tags:
         v.append(sorted(tags)[0].upper().encode())
-    v += [b'"a"', b'["a", "b"]', b"1", b"text:\nx\n.", b"true"]
+    v += [b'"a"', b'["a", "b"]', b"1", b"text:\nx\n.", b"true", b'"c\r\nd"']
     if ":count" in tags:
         v.append(b'"gt"')
     if ":comparator" in tags:
